@@ -6,6 +6,6 @@ for d in $(git -C /repo worktree list --porcelain | awk '/^worktree /{print $2}'
   git -C /repo worktree remove --force "$d" 2>/dev/null || rm -rf "$d"
 done
 git -C /repo worktree prune
-rm -rf /tmp/seed /tmp/seed2 /tmp/seed3 /tmp/repo_head /tmp/touch /tmp/scratch /tmp/cpu.prof /tmp/w_*.json /tmp/mut1 /tmp/s8 /tmp/o* /tmp/fz 2>/dev/null
+rm -rf /tmp/seed /tmp/seed2 /tmp/seed3 /tmp/seed4 /tmp/repo_head /tmp/touch /tmp/scratch /tmp/cpu.prof /tmp/w_*.json /tmp/mut1 /tmp/s8 /tmp/o* /tmp/fz 2>/dev/null
 rm -rf /verif/.build/alt-* 2>/dev/null
 git -C /repo worktree list
